@@ -67,3 +67,5 @@ ls
 # --- added later (kept here so the script documents every fixture) ---
 # cat cli_operator_cert.pem ca1_cert.pem > cli_operator_chain_ca.pem ; cat cli_operator_cert.pem ss_b_cert.pem > cli_operator_chain_rogue.pem
 # exotic roles (leaf certs signed by ca1): cli_role_admin "admin", cli_role_long "R"x200, cli_role_utf8 (FORMAT:UTF8) "rôle-ü", cli_role_space "role with space", cli_role_empty ""
+# cli_role_nul: role "operator\0x" (a UTF8String with an interior NUL, given as DER):
+#   printf "subjectAltName=DNS:client.test\nextendedKeyUsage=serverAuth,clientAuth\n$ROLE_OID=DER:0c0a6f70657261746f720078\n" > x.ext ; mkleaf cli_role_nul ca1 x.ext
